@@ -180,6 +180,15 @@ def unjson_float(x):
     return x
 
 
+def unjsonable(x):
+    """Recursively restore 'nan' / 'inf' / '-inf' strings written by jsonable."""
+    if isinstance(x, dict):
+        return {k: unjsonable(v) for k, v in x.items()}
+    if isinstance(x, list):
+        return [unjsonable(v) for v in x]
+    return unjson_float(x)
+
+
 def farr(x):
     """JSON list (possibly with 'nan'/'inf' strings) -> float ndarray."""
 
